@@ -25,7 +25,9 @@
  */
 
 #include <crypt.h>
+#include <errno.h>
 #include <fcntl.h>
+#include <stdio.h>
 #include <limits.h>
 #include <stddef.h>
 #include <stdlib.h>
@@ -51,6 +53,7 @@
 static cJSON *user_data = NULL;
 static const cJSON *users = NULL;
 static int password_file = -1;
+static char *password_file_name = NULL;
 
 struct crypt_method {
 	const char *prefix;        /* salt prefix */
@@ -141,9 +144,9 @@ int load_passwd_data(const char *passwd_file)
 	}
 
 	munmap(p, size);
-	free(rp);
 
 	password_file = fd;
+	password_file_name = rp;
 	return 0;
 
 add_call_groups_failed:
@@ -174,7 +177,11 @@ void free_passwd_data(void)
 
 	if (password_file != -1) {
 		close(password_file);
+		password_file = -1;
 	}
+
+	free(password_file_name);
+	password_file_name = NULL;
 }
 
 static void clear_password(char *passwd)
@@ -269,33 +276,88 @@ static bool is_admin(const char *current_user)
 	return false;
 }
 
-static int write_user_data()
+static int write_all(int fd, const char *data, size_t len)
 {
-	if (ftruncate(password_file, 0) < 0) {
-		log_err("Could not truncate password file\n");
+	while (len > 0) {
+		cjet_ssize_t written = write(fd, data, len);
+		if (written < 0) {
+			if (errno == EINTR) {
+				continue;
+			}
+			return -1;
+		}
+		data += written;
+		len -= (size_t)written;
+	}
+	return 0;
+}
+
+/*
+ * The new content is written to a temporary file which then replaces
+ * the password file atomically. At every instant the password file
+ * holds either the complete old or the complete new content.
+ */
+static int write_user_data(void)
+{
+	static const char suffix[] = ".tmp";
+	int ret = -1;
+
+	if (password_file_name == NULL) {
 		return -1;
 	}
 
-	lseek(password_file, 0, SEEK_SET);
 	char *data = cJSON_Print(user_data);
 	if (data == NULL) {
 		log_err("Could not serialize user data!");
 		return -1;
 	}
 
-	cjet_ssize_t written = 0;
-	cjet_ssize_t to_write = strlen(data);
-	while (written < to_write) {
-		written = write(password_file, data, to_write);
-		if (written < 0) {
-			log_err("Could not write password file\n");
-			return -1;
-		}
-		to_write -= written;
+	char *tmp_name = cjet_malloc(strlen(password_file_name) + sizeof(suffix));
+	if (tmp_name == NULL) {
+		log_err("Could not allocate memory for temporary password file name\n");
+		goto alloc_failed;
+	}
+	strcpy(tmp_name, password_file_name);
+	strcat(tmp_name, suffix);
+
+	mode_t mode = S_IRUSR | S_IWUSR;
+	struct stat st;
+	if (fstat(password_file, &st) == 0) {
+		mode = st.st_mode & (S_IRWXU | S_IRWXG | S_IRWXO);
 	}
 
+	int fd = open(tmp_name, O_WRONLY | O_CREAT | O_TRUNC, mode);
+	if (fd < 0) {
+		log_err("Could not create temporary password file\n");
+		goto open_failed;
+	}
+
+	if ((write_all(fd, data, strlen(data)) < 0) || (fsync(fd) < 0)) {
+		log_err("Could not write password file\n");
+		close(fd);
+		goto write_failed;
+	}
+
+	if (close(fd) < 0) {
+		log_err("Could not write password file\n");
+		goto write_failed;
+	}
+
+	if (rename(tmp_name, password_file_name) < 0) {
+		log_err("Could not replace password file\n");
+		goto write_failed;
+	}
+
+	ret = 0;
+	goto open_failed;
+
+write_failed:
+	unlink(tmp_name);
+open_failed:
+	cjet_free(tmp_name);
+alloc_failed:
 	cjet_free(data);
-	return 0;
+	return ret;
 }
 
 static void fill_salt(char *buf, unsigned int salt_len)
@@ -400,11 +462,22 @@ cJSON *change_password(const struct peer *p, const cJSON *request, const char *u
 			goto out;
 		}
 
-		cJSON_ReplaceItemInObject(user, "password", cJSON_CreateString(encrypted));
+		cJSON *new_password = cJSON_CreateString(encrypted);
+		if (new_password == NULL) {
+			response = create_error_response_from_request(p, request, INTERNAL_ERROR, "reason", "not enough memory");
+			goto out;
+		}
+
+		cJSON *old_password = cJSON_DetachItemFromObject(user, "password");
+		cJSON_AddItemToObject(user, "password", new_password);
 		if (write_user_data() < 0) {
+			/* Nothing changed on disk, so nothing must change in memory. */
+			cJSON_ReplaceItemInObject(user, "password", old_password);
 			response = create_error_response_from_request(p, request, INTERNAL_ERROR, "reason", "Could not write password file");
 			goto out;
 		}
+
+		cJSON_Delete(old_password);
 	} else {
 		response = create_error_response_from_request(p, request, INVALID_PARAMS, "reason", "user not allowed to change password");
 		goto out;
